@@ -205,6 +205,9 @@ CallE(fn, args) == [e |-> "call", fn |-> fn, args |-> args]
 (* an outer binding named like the parameter of a function that has been called with another type: it is used AFTER the call *)
 PreShadowUse == << LetS(n_f, FuncE(<< n_x >>, S(n_x))), LetS(n_x, L(StrV(<< "b" >>))), LetS(n_r, Bin("add", CallE(n_f, << L(IntV(1)) >>), L(IntV(1)))) >>     \* f(1) + 1: the sum types what f returned
 LitsSA == << StrV(<< "a" >>), IntV(1) >>
+(* the same with the parameter returned inside a list: the first element of f(1) is typed by the sum *)
+PreShadowUse2 == << LetS(n_f, FuncE(<< n_x >>, ListE(<< S(n_x) >>))), LetS(n_x, L(StrV(<< "b" >>))),
+                    LetS(n_r, Bin("add", Bin("dot", CallE(n_f, << L(IntV(1)) >>), L(IntV(0))), L(IntV(1)))) >>
 PreCopyFn == << LetS(n_f, FuncE(<< n_t >>, CopyE(n_t, << F(n_b, L(IntV(2))) >>))),
                 LetS(n_r, CallE(n_f, << TupE(<< F(n_a, L(IntV(1))) >>) >>)) >>
 FamSelUse == {"lit", "var", "bin", "dot", "let"}
